@@ -1,10 +1,11 @@
 Require Import WS.Base.Bytes WS.Base.Tape.
 Require WS.Cases.C13 WS.Cases.C03 WS.Cases.C04 WS.Cases.C05 WS.Cases.C06 WS.Cases.C08 WS.Cases.C17 WS.Cases.C07r.
-Require WS.Cases.C02 WS.Cases.C10 WS.Cases.C20 WS.Cases.C12 WS.Cases.C14 WS.Cases.C15.
+Require WS.Cases.C02 WS.Cases.C10 WS.Cases.C20 WS.Cases.C12 WS.Cases.C14 WS.Cases.C15 WS.Cases.C01.
 
 Definition judge_any (kind:N) (t:tape) : tape :=
   match kind with
   | 13 => C13.judge t
+  | 1 => C01.judge t
   | 2 => C02.judge t
   | 3 => C03.judge t
   | 4 => C04.judge t
